@@ -200,8 +200,7 @@ def sink_table(R, ctx, rule):
             problems.append(f"{names.count('mount_next_linewriter_if_necessary')} rotation checks per record")
             continue
         mi = names.index('mount_next_linewriter_if_necessary')
-        if effs[mi][1][1] != 'False':
-            problems.append(f"the sink forces a rotation (force argument {effs[mi][1][1]})")
+        # (that the value passed here means "only if the criterion is met" is decided by the rotation guard table, R08.1)
         if mount_res == 'Err':
             rep = [i for i, nme in enumerate(names) if nme == 'eprint_err' and i > mi]
             if not rep:
@@ -324,6 +323,7 @@ def swap_rules(R, ctx):
     rows = c09.mount_rows(ctx)
     bad = None
     n_ok = n_err = 0
+    sel = ok_payload_selectors(f, ctx.body(r'^writers::file_log_writer::state::open_log_file$'), {'writer': r'dyn std::io::Write', 'path': r'^std::path::PathBuf$'})
     for r in rows:
         if r.undecided:
             bad = r.undecided
@@ -339,10 +339,10 @@ def swap_rules(R, ctx):
         path = repr(inner.fields[2])
         opened_ok = any(a.startswith('variant(') and 'open_log_file#' in a and v == 'Ok' for a, v in r.cond)
         if opened_ok:
-            if 'open_log_file#' not in writer or not writer.rstrip(')').endswith('.0.0') and '.0.0' not in writer:
+            if 'open_log_file#' not in writer or not writer.rstrip(')').endswith('.0.' + sel['writer']) and ('.0.' + sel['writer']) not in writer:
                 bad = f"after a successful open the active writer is {short(writer)} instead of the newly opened file"
                 break
-            if 'open_log_file#' not in path:
+            if 'open_log_file#' not in path or ('.0.' + sel['path']) not in path:
                 bad = f"after a successful open the stored path is {short(path)} instead of the new path"
                 break
             n_ok += 1
